@@ -211,5 +211,6 @@ func init() {
 		}
 		arithmeticFoundations(c)
 		groupFoundations(c, true)
+		readFullRule(c)
 	}
 }
